@@ -1447,7 +1447,7 @@ class ArgumentParser(ParserDeprecations, ActionsContainer, ArgumentLinking, argp
                 elif value is not None:
                     for k, v in enumerate(value):
                         value[k] = action.type(v)  # type: ignore[operator]
-            except (TypeError, ValueError) as ex:
+            except (TypeError, ValueError, argparse.ArgumentTypeError) as ex:
                 raise TypeError(f'Parser key "{key}": {ex}') from ex
         if not is_subcommand and action.choices:
             vals = value if _is_action_value_list(action) else [value]
